@@ -10,7 +10,7 @@ FLOORS = {
     "C04": {"entries": 4, "obligations": 4},
     "C05": {"entries": 40, "obligations": 400},
     "C06": {"entries": 20, "obligations": 40},
-    "C07": {"entries": 6, "obligations": 10},
+    "C07": {"entries": 25, "obligations": 50},
     "C08": {"entries": 20, "obligations": 100},
     "C12": {"entries": 4, "obligations": 100},
     "C14": {"entries": 3, "obligations": 100},
